@@ -11,59 +11,59 @@ open SE.Paths
 /-! ### which kinds of objects a traversal contains -/
 def kindIx (o : Obj) : Nat := (objKey o).1
 
-def KindsIn (ys : List Obj) (ks : List Nat) : Prop := ∀ o ∈ ys, kindIx o ∈ ks
+def OKinds (ys : List Obj) (ks : List Nat) : Prop := ∀ o ∈ ys, kindIx o ∈ ks
 
-theorem KindsIn.mono {ys : List Obj} {ks ks' : List Nat} (h : KindsIn ys ks) (hs : ∀ k ∈ ks, k ∈ ks') :
-    KindsIn ys ks' := fun o ho => hs _ (h o ho)
+theorem OKinds.mono {ys : List Obj} {ks ks' : List Nat} (h : OKinds ys ks) (hs : ∀ k ∈ ks, k ∈ ks') :
+    OKinds ys ks' := fun o ho => hs _ (h o ho)
 
-theorem KindsIn.append {a b : List Obj} {ks : List Nat} (ha : KindsIn a ks) (hb : KindsIn b ks) :
-    KindsIn (a ++ b) ks := by
+theorem OKinds.append {a b : List Obj} {ks : List Nat} (ha : OKinds a ks) (hb : OKinds b ks) :
+    OKinds (a ++ b) ks := by
   intro o ho
   rcases List.mem_append.1 ho with h | h
   · exact ha o h
   · exact hb o h
 
-theorem KindsIn.flatMap {α : Type} {f : α → List Obj} {xs : List α} {ks : List Nat}
-    (h : ∀ x ∈ xs, KindsIn (f x) ks) : KindsIn (xs.flatMap f) ks := by
+theorem OKinds.flatMap {α : Type} {f : α → List Obj} {xs : List α} {ks : List Nat}
+    (h : ∀ x ∈ xs, OKinds (f x) ks) : OKinds (xs.flatMap f) ks := by
   intro o ho
   rcases List.mem_flatMap.1 ho with ⟨x, hx, hox⟩
   exact h x hx o hox
 
-theorem KindsIn.map {α : Type} {f : α → Obj} {xs : List α} {ks : List Nat}
-    (h : ∀ x, kindIx (f x) ∈ ks) : KindsIn (xs.map f) ks := by
+theorem OKinds.map {α : Type} {f : α → Obj} {xs : List α} {ks : List Nat}
+    (h : ∀ x, kindIx (f x) ∈ ks) : OKinds (xs.map f) ks := by
   intro o ho
   rcases List.mem_map.1 ho with ⟨x, _, rfl⟩
   exact h x
 
-theorem KindsIn.single {o : Obj} {ks : List Nat} (h : kindIx o ∈ ks) : KindsIn [o] ks := by
+theorem OKinds.single {o : Obj} {ks : List Nat} (h : kindIx o ∈ ks) : OKinds [o] ks := by
   intro o' ho'
   have : o' = o := by simpa using ho'
   exact this ▸ h
 
-theorem KindsIn.nil {ks : List Nat} : KindsIn [] ks := by intro o ho; cases ho
+theorem OKinds.nil {ks : List Nat} : OKinds [] ks := by intro o ho; cases ho
 
-theorem KindsIn.pathsOK {sd : Option PPath} {ys : List Obj} {ks : List Nat} (h : KindsIn ys ks)
+theorem OKinds.pathsOK {sd : Option PPath} {ys : List Obj} {ks : List Nat} (h : OKinds ys ks)
     (hk : 2 ∉ ks) : PathsOK sd ys := by
   intro r hr
   exact absurd (h _ hr) hk
 
-theorem kinds_tagsAll (ts : List Tag) : KindsIn (tagsAll ts) [1] := KindsIn.map (fun _ => by simp [kindIx, objKey])
-theorem kinds_ptagsAll (ts : List PredictedTag) : KindsIn (ptagsAll ts) [1] :=
-  KindsIn.map (fun _ => by simp [kindIx, objKey])
-theorem kinds_users (us : List User) : KindsIn (us.map Obj.user) [0] :=
-  KindsIn.map (fun _ => by simp [kindIx, objKey])
-theorem kinds_optUser (u : Option User) : KindsIn (optUser u) [0] := kinds_users _
-theorem kinds_notesAll (ns : List Note) : KindsIn (notesAll ns) [0] :=
-  KindsIn.flatMap (fun _ _ => kinds_optUser _)
-theorem kinds_badges (bs : List StatusBadge) : KindsIn (bs.flatMap badgeAll) [0] :=
-  KindsIn.flatMap (fun _ _ => kinds_optUser _)
+theorem kinds_tagsAll (ts : List Tag) : OKinds (tagsAll ts) [1] := OKinds.map (fun _ => by simp [kindIx, objKey])
+theorem kinds_ptagsAll (ts : List PredictedTag) : OKinds (ptagsAll ts) [1] :=
+  OKinds.map (fun _ => by simp [kindIx, objKey])
+theorem kinds_users (us : List User) : OKinds (us.map Obj.user) [0] :=
+  OKinds.map (fun _ => by simp [kindIx, objKey])
+theorem kinds_optUser (u : Option User) : OKinds (optUser u) [0] := kinds_users _
+theorem kinds_notesAll (ns : List Note) : OKinds (notesAll ns) [0] :=
+  OKinds.flatMap (fun _ _ => kinds_optUser _)
+theorem kinds_badges (bs : List StatusBadge) : OKinds (bs.flatMap badgeAll) [0] :=
+  OKinds.flatMap (fun _ _ => kinds_optUser _)
 
 /-- the condition `hno` of `viaStore_spec` from the kinds occurring in the sub-traversal -/
 theorem hno_of_kinds {T : List Tag} {dir : Option PPath} {κ ω : Type}
     {get : SaveSt → List (Atom × ω)} {set : SaveSt → List (Atom × ω) → SaveSt}
     {sel : Obj → Option κ} {inj : κ → Obj} {key : κ → Atom} {enc : κ → ω}
     (tb : TabOK T dir get set sel inj key enc) {sub : List Obj} {ks : List Nat} (k : Nat)
-    (hk : ∀ y, kindIx (inj y) = k) (hks : KindsIn sub ks) (hnk : k ∉ ks) (x : κ) :
+    (hk : ∀ y, kindIx (inj y) = k) (hks : OKinds sub ks) (hnk : k ∉ ks) (x : κ) :
     ∀ o ∈ sub, ∀ y, sel o = some y → key y ≠ key x := by
   intro o ho y hs
   have := hks o ho
@@ -169,12 +169,12 @@ theorem recAll_sub {os : List Obj} (hc : ClosedL os) {r : Recording} (h : Obj.re
   fun o ho => hc _ h o (by simpa [children] using ho)
 
 theorem kinds_recSub (r : Recording) :
-    KindsIn (tagsAll r.tags ++ notesAll r.notes ++ r.owners.map Obj.user) [0, 1] :=
+    OKinds (tagsAll r.tags ++ notesAll r.notes ++ r.owners.map Obj.user) [0, 1] :=
   ((kinds_tagsAll _).mono (by simp)).append ((kinds_notesAll _).mono (by simp)) |>.append
     ((kinds_users _).mono (by simp))
 
-theorem kinds_recAll (r : Recording) : KindsIn (recAll r) [0, 1, 2] :=
-  ((kinds_recSub r).mono (by simp)).append (KindsIn.single (by simp [kindIx, objKey]))
+theorem kinds_recAll (r : Recording) : OKinds (recAll r) [0, 1, 2] :=
+  ((kinds_recSub r).mono (by simp)).append (OKinds.single (by simp [kindIx, objKey]))
 
 theorem opRecording_spec (r : Recording) (os : List Obj) (hpre : Pre T dir os (recAll r)) :
     Spec T dir (opRecording dir r) os (recAll r) (encRecordingT T dir r) := by
@@ -329,94 +329,94 @@ theorem ceAll_full {e : ClipEvaluation} (h : Obj.clipEval e ∈ os) : ∀ o ∈ 
 end full
 
 /-! ### kinds occurring in each traversal -/
-theorem kinds_clipAll (c : Clip) : KindsIn (clipAll c) [0, 1, 2, 3] :=
-  ((kinds_recAll _).mono (by decide)).append (KindsIn.single (by simp [kindIx, objKey]))
-theorem kinds_seAll (s : SoundEvent) : KindsIn (seAll s) [0, 1, 2, 4] :=
-  ((kinds_recAll _).mono (by decide)).append (KindsIn.single (by simp [kindIx, objKey]))
-theorem kinds_sesAll (ss : List SoundEvent) : KindsIn (ss.flatMap seAll) [0, 1, 2, 4] :=
-  KindsIn.flatMap fun s _ => kinds_seAll s
-theorem kinds_seqAllAux (n : SeqNode) (as : List SeqNode) : KindsIn (seqAllAux n as) [0, 1, 2, 4, 5] := by
+theorem kinds_clipAll (c : Clip) : OKinds (clipAll c) [0, 1, 2, 3] :=
+  ((kinds_recAll _).mono (by decide)).append (OKinds.single (by simp [kindIx, objKey]))
+theorem kinds_seAll (s : SoundEvent) : OKinds (seAll s) [0, 1, 2, 4] :=
+  ((kinds_recAll _).mono (by decide)).append (OKinds.single (by simp [kindIx, objKey]))
+theorem kinds_sesAll (ss : List SoundEvent) : OKinds (ss.flatMap seAll) [0, 1, 2, 4] :=
+  OKinds.flatMap fun s _ => kinds_seAll s
+theorem kinds_seqAllAux (n : SeqNode) (as : List SeqNode) : OKinds (seqAllAux n as) [0, 1, 2, 4, 5] := by
   induction as generalizing n with
   | nil =>
     unfold seqAllAux
-    exact ((kinds_sesAll _).mono (by decide)).append (KindsIn.single (by simp [kindIx, objKey]))
+    exact ((kinds_sesAll _).mono (by decide)).append (OKinds.single (by simp [kindIx, objKey]))
   | cons a as ih =>
     unfold seqAllAux
     exact ((ih a).append ((kinds_sesAll _).mono (by decide))).append
-      (KindsIn.single (by simp [kindIx, objKey]))
-theorem kinds_seqAll (s : Sequence) : KindsIn (seqAll s) [0, 1, 2, 4, 5] := kinds_seqAllAux _ _
+      (OKinds.single (by simp [kindIx, objKey]))
+theorem kinds_seqAll (s : Sequence) : OKinds (seqAll s) [0, 1, 2, 4, 5] := kinds_seqAllAux _ _
 
 theorem kinds_seaSub (a : SoundEventAnnotation) :
-    KindsIn (seAll a.sound_event ++ notesAll a.notes ++ tagsAll a.tags ++ optUser a.created_by)
+    OKinds (seAll a.sound_event ++ notesAll a.notes ++ tagsAll a.tags ++ optUser a.created_by)
       [0, 1, 2, 4] :=
   (((kinds_seAll _).append ((kinds_notesAll _).mono (by decide))).append
     ((kinds_tagsAll _).mono (by decide))).append ((kinds_optUser _).mono (by decide))
-theorem kinds_seaAll (a : SoundEventAnnotation) : KindsIn (seaAll a) [0, 1, 2, 4, 6] :=
-  ((kinds_seaSub a).mono (by decide)).append (KindsIn.single (by simp [kindIx, objKey]))
+theorem kinds_seaAll (a : SoundEventAnnotation) : OKinds (seaAll a) [0, 1, 2, 4, 6] :=
+  ((kinds_seaSub a).mono (by decide)).append (OKinds.single (by simp [kindIx, objKey]))
 
 theorem kinds_sqaSub (a : SequenceAnnotation) :
-    KindsIn (seqAll a.sequence ++ notesAll a.notes ++ tagsAll a.tags ++ optUser a.created_by)
+    OKinds (seqAll a.sequence ++ notesAll a.notes ++ tagsAll a.tags ++ optUser a.created_by)
       [0, 1, 2, 4, 5] :=
   (((kinds_seqAll _).append ((kinds_notesAll _).mono (by decide))).append
     ((kinds_tagsAll _).mono (by decide))).append ((kinds_optUser _).mono (by decide))
-theorem kinds_sqaAll (a : SequenceAnnotation) : KindsIn (sqaAll a) [0, 1, 2, 4, 5, 7] :=
-  ((kinds_sqaSub a).mono (by decide)).append (KindsIn.single (by simp [kindIx, objKey]))
+theorem kinds_sqaAll (a : SequenceAnnotation) : OKinds (sqaAll a) [0, 1, 2, 4, 5, 7] :=
+  ((kinds_sqaSub a).mono (by decide)).append (OKinds.single (by simp [kindIx, objKey]))
 
 theorem kinds_caSub (a : ClipAnnotation) :
-    KindsIn (clipAll a.clip ++ tagsAll a.tags ++ a.sound_events.flatMap seaAll
+    OKinds (clipAll a.clip ++ tagsAll a.tags ++ a.sound_events.flatMap seaAll
       ++ a.sequences.flatMap sqaAll ++ notesAll a.notes) [0, 1, 2, 3, 4, 5, 6, 7] :=
   (((((kinds_clipAll _).mono (by decide)).append ((kinds_tagsAll _).mono (by decide))).append
-    (KindsIn.flatMap fun x _ => (kinds_seaAll x).mono (by decide))).append
-    (KindsIn.flatMap fun x _ => (kinds_sqaAll x).mono (by decide))).append
+    (OKinds.flatMap fun x _ => (kinds_seaAll x).mono (by decide))).append
+    (OKinds.flatMap fun x _ => (kinds_sqaAll x).mono (by decide))).append
     ((kinds_notesAll _).mono (by decide))
-theorem kinds_caAll (a : ClipAnnotation) : KindsIn (caAll a) [0, 1, 2, 3, 4, 5, 6, 7, 8] :=
-  ((kinds_caSub a).mono (by decide)).append (KindsIn.single (by simp [kindIx, objKey]))
+theorem kinds_caAll (a : ClipAnnotation) : OKinds (caAll a) [0, 1, 2, 3, 4, 5, 6, 7, 8] :=
+  ((kinds_caSub a).mono (by decide)).append (OKinds.single (by simp [kindIx, objKey]))
 
 theorem kinds_sepSub (p : SoundEventPrediction) :
-    KindsIn (seAll p.sound_event ++ ptagsAll p.tags) [0, 1, 2, 4] :=
+    OKinds (seAll p.sound_event ++ ptagsAll p.tags) [0, 1, 2, 4] :=
   (kinds_seAll _).append ((kinds_ptagsAll _).mono (by decide))
-theorem kinds_sepAll (p : SoundEventPrediction) : KindsIn (sepAll p) [0, 1, 2, 4, 9] :=
-  ((kinds_sepSub p).mono (by decide)).append (KindsIn.single (by simp [kindIx, objKey]))
+theorem kinds_sepAll (p : SoundEventPrediction) : OKinds (sepAll p) [0, 1, 2, 4, 9] :=
+  ((kinds_sepSub p).mono (by decide)).append (OKinds.single (by simp [kindIx, objKey]))
 
 theorem kinds_sqpSub (p : SequencePrediction) :
-    KindsIn (seqAll p.sequence ++ ptagsAll p.tags) [0, 1, 2, 4, 5] :=
+    OKinds (seqAll p.sequence ++ ptagsAll p.tags) [0, 1, 2, 4, 5] :=
   (kinds_seqAll _).append ((kinds_ptagsAll _).mono (by decide))
-theorem kinds_sqpAll (p : SequencePrediction) : KindsIn (sqpAll p) [0, 1, 2, 4, 5, 10] :=
-  ((kinds_sqpSub p).mono (by decide)).append (KindsIn.single (by simp [kindIx, objKey]))
+theorem kinds_sqpAll (p : SequencePrediction) : OKinds (sqpAll p) [0, 1, 2, 4, 5, 10] :=
+  ((kinds_sqpSub p).mono (by decide)).append (OKinds.single (by simp [kindIx, objKey]))
 
 theorem kinds_cpSub (p : ClipPrediction) :
-    KindsIn (clipAll p.clip ++ p.sound_events.flatMap sepAll ++ p.sequences.flatMap sqpAll
+    OKinds (clipAll p.clip ++ p.sound_events.flatMap sepAll ++ p.sequences.flatMap sqpAll
       ++ ptagsAll p.tags) [0, 1, 2, 3, 4, 5, 9, 10] :=
   ((((kinds_clipAll _).mono (by decide)).append
-    (KindsIn.flatMap fun x _ => (kinds_sepAll x).mono (by decide))).append
-    (KindsIn.flatMap fun x _ => (kinds_sqpAll x).mono (by decide))).append
+    (OKinds.flatMap fun x _ => (kinds_sepAll x).mono (by decide))).append
+    (OKinds.flatMap fun x _ => (kinds_sqpAll x).mono (by decide))).append
     ((kinds_ptagsAll _).mono (by decide))
-theorem kinds_cpAll (p : ClipPrediction) : KindsIn (cpAll p) [0, 1, 2, 3, 4, 5, 9, 10, 11] :=
-  ((kinds_cpSub p).mono (by decide)).append (KindsIn.single (by simp [kindIx, objKey]))
+theorem kinds_cpAll (p : ClipPrediction) : OKinds (cpAll p) [0, 1, 2, 3, 4, 5, 9, 10, 11] :=
+  ((kinds_cpSub p).mono (by decide)).append (OKinds.single (by simp [kindIx, objKey]))
 
 theorem kinds_taskSub (t : AnnotationTask) :
-    KindsIn (t.status_badges.flatMap badgeAll ++ clipAll t.clip) [0, 1, 2, 3] :=
+    OKinds (t.status_badges.flatMap badgeAll ++ clipAll t.clip) [0, 1, 2, 3] :=
   ((kinds_badges _).mono (by decide)).append (kinds_clipAll _)
 
 theorem kinds_optAll {α : Type} {f : α → List Obj} {x : Option α} {ks : List Nat}
-    (h : ∀ y, KindsIn (f y) ks) : KindsIn (optAll f x) ks := by
+    (h : ∀ y, OKinds (f y) ks) : OKinds (optAll f x) ks := by
   cases x with
-  | none => exact KindsIn.nil
+  | none => exact OKinds.nil
   | some y => exact h y
 
 theorem kinds_matchSub (m : Match) :
-    KindsIn (optAll sepAll m.source ++ optAll seaAll m.target) [0, 1, 2, 4, 6, 9] :=
+    OKinds (optAll sepAll m.source ++ optAll seaAll m.target) [0, 1, 2, 4, 6, 9] :=
   (kinds_optAll fun p => (kinds_sepAll p).mono (by decide)).append
     (kinds_optAll fun a => (kinds_seaAll a).mono (by decide))
-theorem kinds_matchAll (m : Match) : KindsIn (matchAll m) [0, 1, 2, 4, 6, 9, 13] := by
+theorem kinds_matchAll (m : Match) : OKinds (matchAll m) [0, 1, 2, 4, 6, 9, 13] := by
   rw [matchAll_eq]
-  exact ((kinds_matchSub m).mono (by decide)).append (KindsIn.single (by simp [kindIx, objKey]))
+  exact ((kinds_matchSub m).mono (by decide)).append (OKinds.single (by simp [kindIx, objKey]))
 
 theorem kinds_ceSub (e : ClipEvaluation) :
-    KindsIn (caAll e.annotations ++ cpAll e.predictions ++ e.«matches».flatMap matchAll)
+    OKinds (caAll e.annotations ++ cpAll e.predictions ++ e.«matches».flatMap matchAll)
       [0, 1, 2, 3, 4, 5, 6, 7, 8, 9, 10, 11, 13] :=
   (((kinds_caAll _).mono (by decide)).append ((kinds_cpAll _).mono (by decide))).append
-    (KindsIn.flatMap fun x _ => (kinds_matchAll x).mono (by decide))
+    (OKinds.flatMap fun x _ => (kinds_matchAll x).mono (by decide))
 
 end ops
 
